@@ -6,6 +6,7 @@ import (
 	"context"
 	"fmt"
 	"os"
+	"path/filepath"
 	"runtime"
 	"strconv"
 	"strings"
@@ -13,6 +14,7 @@ import (
 	"syscall"
 	"time"
 
+	"github.com/criyle/go-sandbox/container"
 	"github.com/criyle/go-sandbox/pkg/forkexec"
 	"github.com/criyle/go-sandbox/ptracer"
 	"github.com/criyle/go-sandbox/runner"
@@ -317,7 +319,22 @@ func c12KRun(c *vcore.Ctx) *vcore.Violation {
 				initK = len(descendantsDirect(containerInitPid(ct)))
 			}
 		}
-		shape := src.Pick("shape", "tree_exit", "tree_exit", "tree_cancel", "launch_failure", "tree_crash")
+		shape := src.Pick("shape", "tree_exit", "tree_exit", "tree_cancel", "launch_failure", "tree_crash", "sync_refused", "build_fails")
+		if shape == "build_fails" {
+			// building an environment that cannot be completed must leave nothing behind either
+			if kind != "container_rebuild" {
+				shape = "tree_exit"
+			} else {
+				c.Event(shape)
+				b := container.Builder{Root: filepath.Join(c.Dir, "no-such-root-dir"), TmpRoot: "tmp-*"}
+				env, err := b.Build()
+				c.Logf("run %d build_fails: Build -> %v", i, err)
+				if err == nil {
+					env.Destroy()
+				}
+				continue
+			}
+		}
 		c.Event(shape)
 		script := procTreeScript(c, kind != "ptrace")
 		ctx, cancel := context.WithCancel(context.Background())
@@ -343,7 +360,17 @@ func c12KRun(c *vcore.Ctx) *vcore.Violation {
 		extra := []*os.File{rv.announceW, rv.releaseR, pidW}
 		var res runner.Result
 		var topPid int
-		sync := func(pid int) error { topPid = pid; return nil }
+		sync := func(pid int) error {
+			topPid = pid
+			if shape == "sync_refused" {
+				topPid = 0
+				return fmt.Errorf("refused by caller") // e.g. a failed cgroup attach
+			}
+			return nil
+		}
+		if shape == "sync_refused" {
+			script = append(script, "exit", "0")
+		}
 		ok := watchdog(40*time.Second, func() {
 			switch {
 			case shape == "launch_failure" && kind == "ptrace":
@@ -415,6 +442,12 @@ func c12KRun(c *vcore.Ctx) *vcore.Violation {
 		}
 	}
 	f, k, g := settle()
+	// goroutines that end asynchronously (the runners' cancellers, forkexec's reader) get time to do so:
+	// growth is reported only if it persists
+	for i := 0; i < 100 && (f > baseF || k > baseK || g > baseG); i++ {
+		time.Sleep(30 * time.Millisecond)
+		f, k, g = settle()
+	}
 	c.Logf("host after warm-up: fds=%d children=%d goroutines=%d; at the end: fds=%d children=%d goroutines=%d", baseF, baseK, baseG, f, k, g)
 	if os.Getenv("VERIF_DEBUG") != "" && (f > baseF || g > baseG) {
 		buf := make([]byte, 1<<20)
